@@ -4,7 +4,7 @@ package go9p
 
 type vxLogRec struct {
 	id    int
-	owner int // 1 or 2
+	owner int // 1 or 2; 0 = logged without an owner
 	typ   int // 1, 2 or 3 (3 shares bits with both)
 }
 
@@ -76,11 +76,11 @@ func vxH20Ring(N int, nops int) {
 	var logged []vxLogRec
 	var kept, keptCopy [][]*Log // earlier Filter results and what they held when they were returned
 	for i := 0; i < nops; i++ {
-		if op := vxChoose("op", 4); op < 2 {
-			// owner A or B, symbolic type in {1,2,3}: 3 shares bits with 1 and 2 and equals neither
+		if op := vxChoose("op", 5); op < 2 || op == 4 {
+			// owner A, B or none, symbolic type in {1,2,3}: 3 shares bits with 1 and 2 and equals neither
 			typ := vxInt("type")
 			vxAssume(vxAll(typ >= 1, typ <= 3))
-			r := vxLogRec{id: len(logged), owner: 1 + op, typ: typ}
+			r := vxLogRec{id: len(logged), owner: (1 + op) % 5, typ: typ}
 			logged = append(logged, r)
 			l.Log(r.id, vxOwnerVal(r.owner), r.typ)
 		} else {
@@ -190,7 +190,7 @@ func vxH20FilterConc(N int, n int, callers int) {
 	l := NewLogger(N)
 	var logged []vxLogRec
 	for i := 0; i < n; i++ {
-		r := vxLogRec{id: i, owner: 1 + i%2, typ: 1 + (i/2)%3}
+		r := vxLogRec{id: i, owner: i % 3, typ: 1 + (i/2)%3}
 		logged = append(logged, r)
 		l.Log(r.id, vxOwnerVal(r.owner), r.typ)
 	}
